@@ -86,6 +86,13 @@ Volume(vm, v, c, e, m) == Min(127, VolRaw(vm, v, c, e, m))
 \* realTime_NoteOn: instrument velocity offset, clamp to 1..127, soft pedal floor(vel * 0.8f)
 EffVel(v, veloff, soft) == LET a == Clamp(v + veloff, 1, 127) IN IF soft THEN (4 * a) \div 5 ELSE a
 
+(* EA-MUS ("RSXX") music mode: a NoteOn for a key that is sounding on that MIDI channel starts no new note; it is a
+   velocity update of the sounding one (realTime_NoteOn, first branch): the same clamp to 1..127 with the instrument's
+   velocity offset, NO soft-pedal reduction, then noteUpdate(Upd_Volume) - one re-levelling, no patch upload, no key-on.
+   The mode also locks the set-up: the Generic volume model is in force whatever was or is asked for. *)
+RestrikeVel(v, veloff) == EffVel(v, veloff, FALSE)
+RsxxVolumeModel == 1
+
 \* noteUpdate(Upd_Volume): the brightness handed to touchNote
 BrightArg(frb, perc, b) == IF perc THEN 127 ELSE IF frb THEN b ELSE IF b >= 64 THEN 127 ELSE 2 * b
 
